@@ -1,11 +1,16 @@
 import ParsecVerif.Model.DepWord
 import ParsecVerif.Base.Interleave
+import ParsecVerif.Proofs.DepWordMask
 /-!
 # C07 — a task becomes ready exactly once, when its last input arrives
 
 Counter mode: `n = goal ≥ 1` predecessors each run `parsec_update_deps_with_counter` once, under
 ANY interleaving of their atomic steps.  Exactly one call returns "ready", and when it does every
 other call has already returned (so all inputs have been released).
+
+Mask mode (second half of the file): one predecessor per entry of `bits` runs
+`parsec_update_deps_with_mask` once (plain read of the word, then one atomic fetch-or), under ANY
+interleaving; same statement for the fetch-or results.  Invariant in `Proofs/DepWordMask.lean`.
 -/
 namespace ParsecVerif.C07
 open ParsecVerif.DepWord ParsecVerif.Interleave
@@ -196,6 +201,113 @@ theorem counter_step_progress (goal : Int) (s : CState) (t : Nat) (pc : Pc) (h :
 
 /-! Non-vacuity: a concrete interleaving in which the CAS of thread 0 races with thread 1's read. -/
 example : (crun 3 3 [0, 1, 1, 0, 2, 2, 0]).pcs = [.done true, .done false, .done false] ∧ (crun 3 3 [0, 1, 1, 0, 2, 2, 0]).w = 0 := by
+  decide
+
+/-! ## Mask mode -/
+
+open ParsecVerif.DepWordMask
+
+/-- number of `parsec_update_deps_with_mask` calls that reported "ready" -/
+def mT (s : MState) := s.pcs.count (.done true)
+
+def mAllDone (s : MState) : Prop := ∀ pc ∈ s.pcs, ∃ b, pc = .done b
+
+theorem mAllDone_iff (s : MState) : mAllDone s ↔ ∀ u, u < s.pcs.length → Dn s.pcs u := by
+  unfold mAllDone Dn
+  constructor
+  · intro h u hu
+    obtain ⟨b, hb⟩ := h s.pcs[u] (List.getElem_mem hu)
+    exact ⟨b, by rw [List.getElem?_eq_getElem hu, hb]⟩
+  · intro h pc hm
+    obtain ⟨u, hu⟩ := List.mem_iff_getElem?.1 hm
+    obtain ⟨r, hr⟩ := h u (List.getElem?_eq_some_iff.1 hu).1
+    rw [hu] at hr
+    injection hr with hr
+    exact ⟨r, hr⟩
+
+/-- **C07, mask mode.**  For all masks satisfying `MaskOK` (what the generator guarantees,
+    `DepWordMask.maskOK_of_flows`) and every interleaving of the plain reads and atomic fetch-ors of
+    the `bits.length` releasing calls: at most one call has returned "ready"; if one has, every call
+    has already returned; and once all calls have returned, exactly one returned "ready". -/
+theorem mask_exactly_once (im g : Nat) (bits : List Nat) (ok : MaskOK im g bits) (sched : List Nat) :
+    mT (mrun im g bits sched) ≤ 1 ∧ (mT (mrun im g bits sched) = 1 → mAllDone (mrun im g bits sched)) ∧
+    (mAllDone (mrun im g bits sched) → mT (mrun im g bits sched) = 1) := by
+  have h := minv_run ok sched
+  generalize mrun im g bits sched = s at h
+  have hd := mAllDone_iff s
+  unfold mT
+  rcases h.ready with ⟨h1, h2⟩ | ⟨⟨u, hu, h1⟩, h2⟩
+  · exact ⟨by omega, fun _ => hd.2 h1, fun _ => h2⟩
+  · refine ⟨by omega, fun h3 => by omega, fun h3 => absurd (hd.1 h3 u hu) h1⟩
+
+/-- the word never contains a bit outside IN_DONE ∪ IN mask ∪ released flows -/
+theorem mask_word_bits (im g : Nat) (bits : List Nat) (ok : MaskOK im g bits) (sched : List Nat) (i : Nat)
+    (hi : (mrun im g bits sched).w.testBit i = true) : i = 30 ∨ im.testBit i = true ∨ i ∈ bits := by
+  have h := minv_run ok sched
+  generalize mrun im g bits sched = s at h hi
+  rcases (h.word i).1 hi with ⟨_, h1 | h1⟩ | ⟨u, _, h1⟩
+  · exact Or.inl h1
+  · exact Or.inr (Or.inl h1)
+  · exact Or.inr (Or.inr (List.mem_iff_getElem?.2 ⟨u, h1⟩))
+
+/-- once every call has returned the word is exactly IN_DONE ∪ IN mask ∪ released flows, and it
+    covers the goal -/
+theorem mask_word_final (im g : Nat) (bits : List Nat) (ok : MaskOK im g bits) (sched : List Nat)
+    (hall : mAllDone (mrun im g bits sched)) :
+    (∀ i, (mrun im g bits sched).w.testBit i = true ↔ (i = 30 ∨ im.testBit i = true ∨ i ∈ bits)) ∧
+    (mrun im g bits sched).w &&& g = g := by
+  have h := minv_run ok sched
+  have hb := mask_word_bits im g bits ok sched
+  generalize mrun im g bits sched = s at h hall hb
+  have hd := (mAllDone_iff s).1 hall
+  have hpos : 0 < s.pcs.length := by rw [h.len]; exact List.length_pos_iff.2 ok.ne
+  have hex : ∃ u, Dn s.pcs u := ⟨0, hd 0 hpos⟩
+  have hw : ∀ i, s.w.testBit i = true ↔ (i = 30 ∨ im.testBit i = true ∨ i ∈ bits) := by
+    intro i
+    refine ⟨hb i, ?_⟩
+    rintro (h1 | h1 | h1)
+    · exact (h.word i).2 (Or.inl ⟨hex, Or.inl h1⟩)
+    · exact (h.word i).2 (Or.inl ⟨hex, Or.inr h1⟩)
+    · obtain ⟨u, hu⟩ := List.mem_iff_getElem?.1 h1
+      have hlt : u < s.pcs.length := by rw [h.len]; exact (List.getElem?_eq_some_iff.1 hu).1
+      exact (h.word i).2 (Or.inr ⟨u, hd u hlt, hu⟩)
+  refine ⟨hw, (and_eq_iff s.w g).2 fun i hg => (hw i).2 ?_⟩
+  rcases ok.cover i hg with h1 | h1
+  · exact Or.inr (Or.inl h1)
+  · exact Or.inr (Or.inr h1)
+
+/-- Progress: in every reachable state a call that has not returned can take a step, and each call
+    takes exactly 2 steps (plain read, fetch-or), so every fair run ends with all calls returned. -/
+theorem mask_step_progress (im g : Nat) (bits : List Nat) (ok : MaskOK im g bits) (sched : List Nat) (t : Nat) (pc : MPc)
+    (h : (mrun im g bits sched).pcs[t]? = some pc) (hnd : ∀ b, pc ≠ .done b) :
+    (mstep im g bits (mrun im g bits sched) t).pcs[t]? ≠ some pc := by
+  have hinv := minv_run ok sched
+  generalize mrun im g bits sched = s at h hinv
+  obtain ⟨hi, _⟩ := List.getElem?_eq_some_iff.1 h
+  cases pc with
+  | start =>
+    have hlt : t < bits.length := by rw [← hinv.len]; exact hi
+    rw [mstep_start h (List.getElem?_eq_getElem hlt)]
+    show (s.pcs.set t _)[t]? ≠ _
+    rw [List.getElem?_set_self hi]
+    simp
+  | orr v =>
+    rw [mstep_orr h]
+    show (s.pcs.set t _)[t]? ≠ _
+    rw [List.getElem?_set_self hi]
+    simp
+  | done b => exact absurd rfl (hnd b)
+
+/-! Non-vacuity.  Flows `L D W C1 D`: IN mask = bits 0,2; goal = 0b11111; releases = flows 1,3,4.
+    Threads 0 and 1 both read the word before any fetch-or (both carry the IN bits), thread 2 reads
+    it after thread 0's fetch-or (sees IN_DONE, carries only its own bit); thread 1 is last. -/
+example : inMask [.localData, .data, .writeOnly, .ctl1, .data] = 5 ∧ goalMask [.localData, .data, .writeOnly, .ctl1, .data] = 31 ∧
+    releaseBits [.localData, .data, .writeOnly, .ctl1, .data] = [1, 3, 4] := by decide
+example : MaskOK 5 31 [1, 3, 4] := by decide
+example : MaskOK 5 31 [1, 3, 4] := maskOK_of_flows [.localData, .data, .writeOnly, .ctl1, .data] (by decide) (by decide)
+example : (mrun 5 31 [1, 3, 4] [0, 1, 0, 2, 2, 1]).pcs = [.done false, .done true, .done false] ∧
+    (mrun 5 31 [1, 3, 4] [0, 1, 0, 2, 2, 1]).w = 2 ^ 30 + 31 ∧
+    (mrun 5 31 [1, 3, 4] [0, 1, 0, 2, 2]).pcs = [.done false, .orr (2 ^ 30 + 8 + 5), .done false] := by
   decide
 
 end ParsecVerif.C07
